@@ -162,7 +162,7 @@ fn round_case(i: u64, seed: u64, out: &mut CaseOut) {
     let workers = 2 + rng.below(7);
     let actions = 40u64;
     let with_undo = rng.chance(1, 2);
-    let processes = rng.chance(1, 3);
+    let processes = rng.chance(1, 3) && std::env::var("TCV_THREADS_ONLY").is_err();
     // initialise once (concurrent creation of a database is outside the statement), and create the shared tasks
     let init_ops: Operations = {
         let st = block_on(SqliteStorage::new(&dir, AccessMode::ReadWrite, true)).expect("init");
